@@ -139,6 +139,31 @@ func (e *Eng) execStmt(st *State, s ast.Stmt) *State {
 			args = append(args, e.eval(st, a))
 		}
 		st.defers = append(st.defers, deferEntry{call: s.Call, args: args})
+		// ghost events anchored at the registration of a deferred call: at `defer <call text>` ...
+		if e.con != nil && len(e.con.At) > 0 {
+			ast.Inspect(s.Call, func(n ast.Node) bool {
+				c, ok := n.(*ast.CallExpr)
+				if !ok {
+					return true
+				}
+				key := "defer " + e.srcFull(c)
+				cls, ok := e.con.At[key]
+				if !ok {
+					return true
+				}
+				e.con.atUsed[key] = true
+				for _, cl := range cls {
+					switch cl.Kind {
+					case "requires":
+						g := e.evalSpec(st, cl.Expr, e.specEnvFromState(st), e.oldEnv)
+						e.oblige(st, "at", key+" requires "+cl.Src, g.T, s.Pos())
+					case "ghost":
+						st.vars[e.ghosts[cl.Name]] = e.evalSpec(st, cl.Expr, e.specEnvFromState(st), e.oldEnv)
+					}
+				}
+				return true
+			})
+		}
 		return st
 	case *ast.GoStmt:
 		return e.execGo(st, s)
@@ -485,7 +510,7 @@ func (e *Eng) ghostsAssignedIn(n ast.Node) map[types.Object]bool {
 	ast.Inspect(n, func(x ast.Node) bool {
 		if c, ok := x.(*ast.CallExpr); ok {
 			t := e.srcFull(c)
-			keys := []string{t}
+			keys := []string{t, "defer " + t}
 			if ord, ok := e.callOrd[c]; ok {
 				keys = append(keys, fmt.Sprintf("%s#%d", t, ord))
 			}
